@@ -598,9 +598,16 @@ for n in (0, 1, 3):
 
 NAMEF = "src/debugger/command/parse/name.rs"
 # (the main command table -- 18 entries, ~110 names -- is out of reach: one entry's names against the whole table with a
-#  symbolic case mask did not finish in 25 min; harnesses c14_names_entry_NN exist but are not registered)
+#  symbolic case mask did not finish in 25 min; harnesses c14_names_entry_NN exist but are not registered.
+#  What is decided instead: name_matches is case-insensitive on each list of the table, c14_names_lists_case_insensitive_*)
 H("C14", "debugger::command::parse::name::verif_h::c14_names_subcommands", NAMEF, tier="thorough", covers=0, timeout=3000, mem_gb=24,
   functions=["find_name_match", "name_matches", "SUBCOMMANDS_STEP", "SUBCOMMANDS_BREAK"], what="step / break subcommand tables, symbolic case mask", bounds="the tables as compiled")
+
+for nm, wh in (("c14_names_lists_case_insensitive_lo", "entries 0..9"), ("c14_names_lists_case_insensitive_hi", "entries 9..18")):
+    H("C14", f"debugger::command::parse::name::verif_h::{nm}", NAMEF, covers=1, timeout=2400, mem_gb=24,
+      functions=["name_matches", "COMMANDS"], what="every word of the main command table (names, aliases, misspellings), in every letter case (symbolic case mask), "
+      "is matched by name_matches against the list it is written in", bounds=f"the table as compiled, {wh}")
+# (c14_names_table_unambiguous -- the whole table through find_name_match, written spelling only -- timed out at 2400 s: not registered)
 
 RUNLOOP_STUBS = [FMT, SYM, PRINT, EXIT, "Debugger::next_action -> its contract (Proceed only from an executable PC; decided by c10_running_* / c10_cmd_*)",
                  "RunState::execute -> probe that checks (instr == mem[PC], PC+1) and ends the path"]
